@@ -294,7 +294,7 @@ def steer(a: dict, session: dict, target: int, plan: list) -> dict:
     return a
 
 
-MODES = ['small', 'ext-switch', 'ext-switch', 'block-250-260', 'near-limit', 'near-limit', 'near-limit', 'near-limit', 'mid']
+MODES = ['small', 'small', 'ext-switch', 'ext-switch', 'block-250-260', 'near-limit', 'near-limit', 'near-limit', 'near-limit', 'mid', 'mid']
 
 
 @st.composite
@@ -356,7 +356,7 @@ def route_groups(draw, session, near_limit: bool, announce: bool):
         if budget <= 0:
             break
         afi, safi = draw(st.sampled_from(FAMILIES + [(1, 1), (2, 1)]))
-        count = min(budget, draw(st.sampled_from([1, 1, 2, 3, 9, 40, 150, 400, 1500])))
+        count = min(budget, draw(st.sampled_from([1, 2, 3, 9, 40, 150, 400, 400, 1500])))
         budget -= count
         mix = draw(st.integers(0, 5))
         if announce:
@@ -388,27 +388,35 @@ def cases(draw):
 
 
 def boundary_sweep() -> list[dict]:
-    """enumerated: room left by the attributes from -2 to 48 octets x family x small route shapes, msg_size 4096"""
+    """enumerated: room left by the attributes from -2 to 48 octets x family x small route shapes (msg_size 4096),
+    and the mixed-mask shapes again at 65535 for a few rooms"""
     out = []
     base_session = {'ext_ours': False, 'ext_peer': False, 'addpath': False, 'asn4': True, 'ibgp': True, 'families': [list(f) for f in FAMILIES]}
+    big_session = dict(base_session, ext_ours=True, ext_peer=True)
     base_attrs = {'source': 'v4', 'origin': 0, 'med': None, 'atomic': False, 'n_as': 0, 'as4': False, 'n_comm': 0, 'n_large': 0, 'generic': 0, 'nh4': 0, 'mode': 'sweep'}
-    shapes = ['announce', 'announce+withdraw', 'v4+announce', 'two-nexthops']
+    other = {(1, 1): (2, 1), (2, 1): (1, 4), (1, 4): (1, 128), (1, 128): (2, 1)}
+
+    def shapes(afi: int, safi: int):
+        v4 = (afi, safi) == (1, 1)
+        oa, os_ = other[(afi, safi)]
+        yield [[afi, safi, 1, 0, 0, 1]], [], True  # one announce
+        yield [[afi, safi, 1, 0, 0, 1]], [[afi, safi, 1, 0]], True  # announce and withdraw in one family
+        yield [[afi, safi, 4, 2, 0, 1]], [], True  # growing masks: the longer prefixes stop fitting first
+        yield [], [[afi, safi, 1, 0]], True  # a withdrawal alone
+        yield [], [[afi, safi, 2, 0]], False  # withdrawals with include_withdraw off: nothing may come out
+        yield [[oa, os_, 1, 5, 0, 1]], [[afi, safi, 4, 2]], True  # growing withdrawals beside an announce of another family
+        if not v4:
+            yield [[1, 1, 3, 0, 0, 1], [afi, safi, 1, 0, 0, 1]], [], True  # IPv4 unicast first, then an MP family
+            yield [[afi, safi, 2, 0, 0, 2]], [], True  # two next hops
+
     for room in range(-2, 49):
-        target = 4096 - UPDATE_FIXED - room
-        attrs = steer(base_attrs, base_session, target, [('n_as', 1.0)])
+        attrs = steer(base_attrs, base_session, 4096 - UPDATE_FIXED - room, [('n_as', 1.0)])
         for afi, safi in FAMILIES:
-            for shape in shapes:
-                ann = [[afi, safi, 1, 0, 0, 1]]
-                wd: list = []
-                if shape == 'announce+withdraw':
-                    wd = [[afi, safi, 1, 0]]
-                elif shape == 'v4+announce':
-                    if (afi, safi) == (1, 1):
-                        continue
-                    ann = [[1, 1, 3, 0, 0, 1]] + ann
-                elif shape == 'two-nexthops':
-                    if (afi, safi) == (1, 1):
-                        continue
-                    ann = [[afi, safi, 2, 0, 0, 2]]
-                out.append({'session': base_session, 'attrs': attrs, 'announces': ann, 'withdraws': wd, 'include_withdraw': True})
+            for ann, wd, iw in shapes(afi, safi):
+                out.append({'session': base_session, 'attrs': attrs, 'announces': ann, 'withdraws': wd, 'include_withdraw': iw})
+    for room in (0, 1, 2, 3, 5, 20, 33, 40):
+        attrs = steer(base_attrs, big_session, 65535 - UPDATE_FIXED - room, [('n_as', 0.5)])
+        for afi, safi in FAMILIES:
+            out.append({'session': big_session, 'attrs': attrs, 'announces': [[afi, safi, 4, 2, 0, 1]], 'withdraws': [], 'include_withdraw': True})
+            out.append({'session': big_session, 'attrs': attrs, 'announces': [[afi, safi, 1, 0, 0, 1]], 'withdraws': [[afi, safi, 1, 0]], 'include_withdraw': True})
     return out
